@@ -1,0 +1,167 @@
+//go:build verif
+
+// Contracts for package pql, read by /verif/govc (comment-only file: with the
+// build tag off it is not compiled, with it on it declares nothing).
+// Syntax: see /verif/DESIGN.md section 2.2. The specification functions
+// (W, WMP, QI, QS, ...) live in /verif/spec/expr.smt2.
+
+package pql
+
+// ---------------------------------------------------------------- quoting
+
+//@ func pql.quoteIdentifier
+//@   use expr
+//@   requires sb != nil
+//@   ensures @text: out(sb) == QI(name, old(out(sb)))
+//@   assigns out(sb)
+//@ loop 1
+//@   invariant -1 <= rangeindex && rangeindex < len(name)
+//@   invariant EscQ(name, 34, rangeindex + 1, out(sb)) == EscQ(name, 34, 0, OByte(old(out(sb)), 34))
+//@   decreases len(name) - rangeindex
+
+//@ func pql.quoteSQLString
+//@   use expr
+//@   requires sb != nil
+//@   ensures @text: out(sb) == QS(s, old(out(sb)))
+//@   assigns out(sb)
+//@ loop 1
+//@   invariant -1 <= rangeindex && rangeindex < len(s)
+//@   invariant EscQ(s, 39, rangeindex + 1, out(sb)) == EscQ(s, 39, 0, OByte(old(out(sb)), 39))
+//@   decreases len(s) - rangeindex
+
+// ---------------------------------------------------------------- expressions
+
+//@ func pql.hasJoinTerms
+//@   use expr
+//@   trusted hasLeft/hasRight name the two results (which join sides an expression mentions); they are defined by this function, which is verified separately only for safety
+//@   ensures left == hasLeft(x) && right == hasRight(x)
+
+//@ func pql.writeExpression
+//@   use expr
+//@   requires ctx != nil && sb != nil && exprWF(x)
+//@   ensures @text: result == nil ==> out(sb) == W(mapdom(ctx.scope), mapval(ctx.scope), ctx.mode, x, old(out(sb)))
+//@   assigns out(sb)
+//@   decreases height(x), 1
+//@ loop 1
+//@   invariant exprWF(x) && strip(x) == strip(old(x)) && height(x) <= height(old(x))
+//@   invariant forallS(o, "Out", W(mapdom(ctx.scope), mapval(ctx.scope), ctx.mode, x, o) == W(mapdom(ctx.scope), mapval(ctx.scope), ctx.mode, old(x), o))
+//@   decreases height(x)
+//@ loop 2
+//@   invariant -1 <= rangeindex && rangeindex < len(x_QualifiedIdent.Parts)
+//@   invariant Wparts(x_QualifiedIdent.Parts, rangeindex + 1, out(sb)) == Wparts(x_QualifiedIdent.Parts, 0, old(out(sb)))
+//@   decreases len(x_QualifiedIdent.Parts) - rangeindex
+//@ loop 3
+//@   invariant -1 <= rangeindex && rangeindex < len(x_InExpr.Vals)
+//@   invariant WMPlist(mapdom(ctx.scope), mapval(ctx.scope), ctx.mode, x_InExpr.Vals, rangeindex + 1, out(sb)) == WMPlist(mapdom(ctx.scope), mapval(ctx.scope), ctx.mode, x_InExpr.Vals, 0, olit(WMP(mapdom(ctx.scope), mapval(ctx.scope), ctx.mode, x_InExpr.X, old(out(sb))), " IN ("))
+//@   decreases len(x_InExpr.Vals) - rangeindex
+//@ loop 4
+//@   invariant -1 <= rangeindex && rangeindex < len(x_CallExpr.Args)
+//@   invariant Wlist(mapdom(ctx.scope), mapval(ctx.scope), ctx.mode, x_CallExpr.Args, rangeindex + 1, out(sb)) == Wlist(mapdom(ctx.scope), mapval(ctx.scope), ctx.mode, x_CallExpr.Args, 0, OByte(OStr(old(out(sb)), x_CallExpr.Func.Name), 40))
+//@   decreases len(x_CallExpr.Args) - rangeindex
+
+//@ func pql.writeExpressionMaybeParen
+//@   use expr
+//@   requires ctx != nil && sb != nil && exprWF(x)
+//@   ensures @text: result == nil ==> out(sb) == WMP(mapdom(ctx.scope), mapval(ctx.scope), ctx.mode, x, old(out(sb)))
+//@   assigns out(sb)
+//@   decreases height(x), 2
+//@ loop 1
+//@   invariant exprWF(x) && strip(x) == strip(old(x)) && height(x) <= height(old(x))
+//@   decreases height(x)
+
+// ---------------------------------------------------------------- built-in function rewrites
+// common contract CW: under x.Func.Name == <key> the function writes W(x); it fails exactly on a wrong argument count (C13)
+
+//@ func pql.writeNotFunction
+//@   use expr
+//@   requires ctx != nil && sb != nil && typeis(x, "CallExpr") && exprWF(x) && x.Func.Name == "not"
+//@   ensures @text: result == nil ==> out(sb) == W(mapdom(ctx.scope), mapval(ctx.scope), ctx.mode, x, old(out(sb)))
+//@   ensures @arity: !arityOK(x.Func.Name, len(x.Args)) ==> result != nil
+//@   assigns out(sb)
+//@   decreases height(x), 0
+
+//@ func pql.writeNowFunction
+//@   use expr
+//@   requires ctx != nil && sb != nil && typeis(x, "CallExpr") && exprWF(x) && x.Func.Name == "now"
+//@   ensures @text: result == nil ==> out(sb) == W(mapdom(ctx.scope), mapval(ctx.scope), ctx.mode, x, old(out(sb)))
+//@   ensures @arity: !arityOK(x.Func.Name, len(x.Args)) ==> result != nil
+//@   assigns out(sb)
+//@   decreases height(x), 0
+
+//@ func pql.writeIsNullFunction
+//@   use expr
+//@   requires ctx != nil && sb != nil && typeis(x, "CallExpr") && exprWF(x) && x.Func.Name == "isnull"
+//@   ensures @text: result == nil ==> out(sb) == W(mapdom(ctx.scope), mapval(ctx.scope), ctx.mode, x, old(out(sb)))
+//@   ensures @arity: !arityOK(x.Func.Name, len(x.Args)) ==> result != nil
+//@   assigns out(sb)
+//@   decreases height(x), 0
+
+//@ func pql.writeIsNotNullFunction
+//@   use expr
+//@   requires ctx != nil && sb != nil && typeis(x, "CallExpr") && exprWF(x) && x.Func.Name == "isnotnull"
+//@   ensures @text: result == nil ==> out(sb) == W(mapdom(ctx.scope), mapval(ctx.scope), ctx.mode, x, old(out(sb)))
+//@   ensures @arity: !arityOK(x.Func.Name, len(x.Args)) ==> result != nil
+//@   assigns out(sb)
+//@   decreases height(x), 0
+
+//@ func pql.writeStrcatFunction
+//@   use expr
+//@   requires ctx != nil && sb != nil && typeis(x, "CallExpr") && exprWF(x) && x.Func.Name == "strcat"
+//@   ensures @text: result == nil ==> out(sb) == W(mapdom(ctx.scope), mapval(ctx.scope), ctx.mode, x, old(out(sb)))
+//@   ensures @arity: !arityOK(x.Func.Name, len(x.Args)) ==> result != nil
+//@   assigns out(sb)
+//@   decreases height(x), 0
+//@ loop 1
+//@   invariant -1 <= rangeindex && rangeindex < len(x.Args) - 1
+//@   invariant Wcat(mapdom(ctx.scope), mapval(ctx.scope), ctx.mode, x.Args, rangeindex + 2, out(sb)) == Wcat(mapdom(ctx.scope), mapval(ctx.scope), ctx.mode, x.Args, 1, WMP(mapdom(ctx.scope), mapval(ctx.scope), ctx.mode, x.Args[0], old(out(sb))))
+//@   decreases len(x.Args) - rangeindex
+
+//@ func pql.writeCountFunction
+//@   use expr
+//@   requires ctx != nil && sb != nil && typeis(x, "CallExpr") && exprWF(x) && x.Func.Name == "count"
+//@   ensures @text: result == nil ==> out(sb) == W(mapdom(ctx.scope), mapval(ctx.scope), ctx.mode, x, old(out(sb)))
+//@   ensures @arity: !arityOK(x.Func.Name, len(x.Args)) ==> result != nil
+//@   assigns out(sb)
+//@   decreases height(x), 0
+
+//@ func pql.writeCountIfFunction
+//@   use expr
+//@   requires ctx != nil && sb != nil && typeis(x, "CallExpr") && exprWF(x) && x.Func.Name == "countif"
+//@   ensures @text: result == nil ==> out(sb) == W(mapdom(ctx.scope), mapval(ctx.scope), ctx.mode, x, old(out(sb)))
+//@   ensures @arity: !arityOK(x.Func.Name, len(x.Args)) ==> result != nil
+//@   assigns out(sb)
+//@   decreases height(x), 0
+
+//@ func pql.writeIfFunction
+//@   use expr
+//@   requires ctx != nil && sb != nil && typeis(x, "CallExpr") && exprWF(x) && (x.Func.Name == "iff" || x.Func.Name == "iif")
+//@   ensures @text: result == nil ==> out(sb) == W(mapdom(ctx.scope), mapval(ctx.scope), ctx.mode, x, old(out(sb)))
+//@   ensures @arity: !arityOK(x.Func.Name, len(x.Args)) ==> result != nil
+//@   assigns out(sb)
+//@   decreases height(x), 0
+
+//@ func pql.writeToLowerFunction
+//@   use expr
+//@   requires ctx != nil && sb != nil && typeis(x, "CallExpr") && exprWF(x) && x.Func.Name == "tolower"
+//@   ensures @text: result == nil ==> out(sb) == W(mapdom(ctx.scope), mapval(ctx.scope), ctx.mode, x, old(out(sb)))
+//@   ensures @arity: !arityOK(x.Func.Name, len(x.Args)) ==> result != nil
+//@   assigns out(sb)
+//@   decreases height(x), 0
+
+//@ func pql.writeToUpperFunction
+//@   use expr
+//@   requires ctx != nil && sb != nil && typeis(x, "CallExpr") && exprWF(x) && x.Func.Name == "toupper"
+//@   ensures @text: result == nil ==> out(sb) == W(mapdom(ctx.scope), mapval(ctx.scope), ctx.mode, x, old(out(sb)))
+//@   ensures @arity: !arityOK(x.Func.Name, len(x.Args)) ==> result != nil
+//@   assigns out(sb)
+//@   decreases height(x), 0
+
+//@ func pql.writeExpressionOperand
+//@   use expr
+//@   requires ctx != nil && sb != nil && exprWF(x)
+//@   ensures @text: result == nil ==> out(sb) == WMPu(mapdom(ctx.scope), mapval(ctx.scope), ctx.mode, x, old(out(sb)))
+//@   assigns out(sb)
+//@   decreases height(x), 3
+//@ loop 1
+//@   invariant exprWF(y) && strip(y) == strip(x) && height(y) <= height(x)
+//@   decreases height(y)
